@@ -19,7 +19,7 @@ let parse_ints s = if s = "-" || s = "" then [] else List.map int_of_string (spl
 (* buffer length rule shared with the harnesses: product of max(d,1) *)
 let buflen dims = List.fold_left (fun a d -> a * (max d 1)) 1 dims
 let after_eq s = let i = String.index s '=' in String.sub s (i + 1) (String.length s - i - 1)
-let backend () = match Sys.argv.(2) with "adf" -> ADF | "hdf5" -> ADFH | b -> prerr_endline ("backend? " ^ b); exit 2
+let backend () = match Sys.argv.(2) with "adf" -> ADF | "hdf5" -> ADFH | "hdf5old" -> ADFH_OLD (* before 358f914 *) | b -> prerr_endline ("backend? " ^ b); exit 2
 
 let mk_dsel dims rs =
   List.map2 (fun d r -> match r with
